@@ -120,7 +120,13 @@ impl Property for P {
         let mut og = OptGen::full();
         og.width = prop_oneof![10 => 0usize..=30, 3 => 31usize..=80, 1 => gen::width()].boxed();
         (
-            words(maxw).prop_filter("at least two words", |w| w.len() >= 2),
+            // at least two words, by construction rather than by rejection
+            words(maxw).prop_map(|mut w| {
+                if w.len() < 2 {
+                    w.push("second".to_string());
+                }
+                w
+            }),
             round_spec(),
             0usize..=40,
             gen::optspec(og),
